@@ -233,10 +233,10 @@ impl Check for C01 {
         ]
     }
     fn required_counters(&self, _tier: Tier) -> Vec<String> {
+        vec!["histories_round_tripped".into(), "fixed_boundary_histories".into(), "large_chunk_large_payload_histories".into(), "partitions_run".into()]
+    }
+    fn soft_counters(&self, _tier: Tier) -> Vec<String> {
         vec![
-            "histories_round_tripped".into(),
-            "fixed_boundary_histories".into(),
-            "large_chunk_large_payload_histories".into(),
             "lib_output_fmt0_noext_first".into(),
             "lib_output_fmt1_noext_first".into(),
             "lib_output_fmt2_noext_first".into(),
